@@ -40,7 +40,7 @@ RULE = ("history world = seeded terminal profile + <= max_ops operations; concur
         "2-4 tasks x seeded schedule making first calls; non-trivial = a get, an invalidating "
         "event and another get at an unchanged terminal size occur in that order, or >= 2 tasks "
         "were inside a first call; distinct = hash of the operation list / schedule")
-PROBES = ["resize_during_cell_size_query", "toggle_then_get_at_unchanged_size", "resize_then_get", "pixel_only_change",
+PROBES = ["resize_during_cell_size_query", "resizes_while_terminal_size_cached_body_runs", "toggle_then_get_at_unchanged_size", "resize_then_get", "pixel_only_change",
           "reenable_queries_discards_disabled_results", "dynamic_ratio_follows_resize",
           "fixed_ratio_survives_resize", "memo_body_once", "terminal_size_cached_recomputed",
           "concurrent_first_calls", "task_waited_on_memo_lock", "auto_ratio_unsupported",
@@ -564,12 +564,20 @@ def run_concurrent(ch, ctx, fault):
         tsc_calls = [0]
         pw = [None]
 
+        tsc_plan = []      # terminal sizes the next body invocations switch to while running
+
         @utils.terminal_size_cached
         def tsc():
             tsc_calls[0] += 1
+            start = (vt.cols, vt.rows)
+            if tsc_plan:
+                vt.resize(*tsc_plan.pop(0)[::-1])
             k.yield_point("tsc-body")
+            if tsc_plan:
+                vt.resize(*tsc_plan.pop(0)[::-1])
             k.yield_point("tsc-body2")
-            return ("tsc", vt.cols, vt.rows, tsc_calls[0])
+            # (the last field: the terminal had one size for the whole computation)
+            return ("tsc", vt.cols, vt.rows, tsc_calls[0], start == (vt.cols, vt.rows))
 
         rounds = ch.int("rounds", 1, 3)
         results = []
@@ -601,6 +609,16 @@ def run_concurrent(ch, ctx, fault):
                     else:
                         utils.get_cell_size()
                 ctx.probe("enable_queries_races_with_first_call")
+            # the terminal is resized twice while the first computation runs (and holds the
+            # lock), other first callers arriving in between; afterwards it returns to the
+            # size in between: whatever is served for a size was computed at that size
+            tsc_resize = which == "tsc" and ch.bool("tsc_resize", 0.5)
+            if tsc_resize:
+                s0 = (vt.cols, vt.rows)
+                s1 = (s0[0] + ch.int("dc1", 1, 5), s0[1] + ch.int("dr1", 0, 3))
+                s2 = (s1[0] + ch.int("dc2", 1, 5), s1[1] + ch.int("dr2", 0, 3))
+                tsc_plan[:] = [s1, s2]
+                ctx.probe("resizes_while_terminal_size_cached_body_runs")
             writes0 = k.counts.get("tty.write", 0)
             got = {}
             k.tasks = []
@@ -644,7 +662,7 @@ def run_concurrent(ch, ctx, fault):
             ctx.op("round %d: %d tasks first-call %s%r -> %r (%d queries sent, %d switches)"
                    % (rnd, ntasks, which, args, [got.get(j) for j in range(ntasks)], writes,
                       k.switches))
-            results.append((which, args, writes, enable_race, swap_race))
+            results.append((which, args, writes, enable_race, swap_race, tsc_resize))
             if swap_race:
                 model.set_swap(not model.swap)
                 check(bool(utils._swap_win_size) == model.swap, "swap_flag_not_toggled", {},
@@ -686,6 +704,19 @@ def run_concurrent(ch, ctx, fault):
                           "result_obtained_while_queries_disabled_survives",
                           {"function": "get_cell_size", "got": g, "fresh": model.fresh_cell()},
                           "concurrent.enable")
+            elif tsc_resize:
+                del tsc_plan[:]
+                for size in (s1, s2, s0, s1):
+                    vt.resize(*size[::-1])
+                    n0 = tsc_calls[0]
+                    v = tsc()
+                    check(v[4] is False or v[1:3] == size,
+                          "value_served_for_a_terminal_size_it_was_not_computed_at",
+                          {"terminal": size, "computed_at": v[1:3],
+                           "body_ran_for_this_call": tsc_calls[0] != n0,
+                           "tasks": [repr(got.get(j)) for j in range(ntasks)]},
+                          "concurrent.tsc")
+                vt.resize(*s0[::-1])
             elif which == "tsc":
                 check(tsc_calls[0] == 1, "terminal_size_cached_body_ran_more_than_once",
                       {"count": tsc_calls[0]}, "concurrent.tsc")
